@@ -1030,7 +1030,24 @@ func (s *Store) Close(wait bool) (retErr error) {
 // Must be called on the Leader or an error will be returned.
 func (s *Store) Barrier() error {
 	f := s.raft.Barrier(s.ApplyTimeout)
-	return f.Error()
+	if err := f.Error(); err != nil {
+		return err
+	}
+	if inf, ok := f.(raft.IndexFuture); ok {
+		s.signalNonCommandApplied(inf.Index())
+	}
+	return nil
+}
+
+// signalNonCommandApplied records that the log entry at index, which is not a
+// command and so is never passed to the FSM's Apply function (a configuration
+// change or a barrier), has been processed. Raft completes the future of such
+// an entry from the FSM goroutine, in log order, so every earlier entry has
+// been applied to the database by then. Without this a linearizable read whose
+// read index is such an entry (for example directly after a node joined or was
+// removed) would wait for the next write, or time out.
+func (s *Store) signalNonCommandApplied(index uint64) {
+	s.fsmTarget.Signal(index)
 }
 
 // WaitForCommitIndex blocks until the local Raft commit index is equal to
@@ -2220,6 +2237,8 @@ func (s *Store) Join(jr *proto.JoinRequest) error {
 		return e.Error()
 	}
 
+	s.signalNonCommandApplied(f.Index())
+
 	stats.Add(numJoins, 1)
 	s.logger.Printf("node with ID %s, at %s, joined successfully as %s", id, addr, prettyVoter(voter))
 	return nil
@@ -2304,7 +2323,11 @@ func (s *Store) remove(id string) error {
 	if f.Error() != nil && f.Error() == raft.ErrNotLeader {
 		return ErrNotLeader
 	}
-	return f.Error()
+	if f.Error() != nil {
+		return f.Error()
+	}
+	s.signalNonCommandApplied(f.Index())
+	return nil
 }
 
 func (s *Store) cleanupCDC() error {
